@@ -30,6 +30,7 @@ func astFacts(out io.Writer) {
 	var shutdownCalls [][2]string // (function, rendered call) for Shutdown / Close calls in package server
 	var serverLits [][2]string    // (function, Handler expression) of every http.Server composite literal in package server
 	var handleCalls [][2]string   // (function, rendered call) of every <mux>.Handle(...) call in package server
+	var compileCalls [][]string   // function followed by the rendered arguments of every frontend.Compile call in package prover
 	var chain []string            // promhttp instrumentation chain in wrapped_http (outermost first, then the innermost argument)
 	for _, d := range dirs {
 		fset := token.NewFileSet()
@@ -133,6 +134,17 @@ func astFacts(out io.Writer) {
 									cur = c.Args[len(c.Args)-1]
 								}
 							}
+							if se, ok := t.Fun.(*ast.SelectorExpr); ok && pname == "prover" && se.Sel.Name == "Compile" && exprString(se.X) == "frontend" {
+								row := []string{fd.Name.Name}
+								for _, a := range t.Args {
+									s := callString(a)
+									if t.Ellipsis.IsValid() && a == t.Args[len(t.Args)-1] {
+										s += "..."
+									}
+									row = append(row, s)
+								}
+								compileCalls = append(compileCalls, row)
+							}
 							if se, ok := t.Fun.(*ast.SelectorExpr); ok && se.Sel.Name == "SetJSONOutput" {
 								jsonCallers = append(jsonCallers, [2]string{pname, fd.Name.Name})
 							}
@@ -210,6 +222,21 @@ func astFacts(out io.Writer) {
 			fmt.Fprint(out, ", ")
 		}
 		fmt.Fprintf(out, "(%q, %v)", w, strings.HasPrefix(w, "promhttp.InstrumentHandler"))
+	}
+	fmt.Fprintf(out, "]\n\n/-- (function, arguments) of every frontend.Compile call in package prover -/\ndef compileCalls : List (String × List String) :=\n  [")
+	sort.Slice(compileCalls, func(i, j int) bool { return compileCalls[i][0] < compileCalls[j][0] })
+	for i, w := range compileCalls {
+		if i > 0 {
+			fmt.Fprint(out, ", ")
+		}
+		fmt.Fprintf(out, "(%q, [", w[0])
+		for k, a := range w[1:] {
+			if k > 0 {
+				fmt.Fprint(out, ", ")
+			}
+			fmt.Fprintf(out, "%q", a)
+		}
+		fmt.Fprint(out, "])")
 	}
 	fmt.Fprintf(out, "]\n\n")
 }
